@@ -97,6 +97,7 @@ def alphabet(tier):
     ops.append(("redir", "T1", "T2"))
     ops.append(("redir", "M1", "Bar"))         # redirect to an absent page
     ops.append(("redir", "M1", "T1"))          # redirect into another namespace
+    ops.append(("addbad", "surrogate_title"))   # an add the store rejects: the caller survives it, nothing else changes
     ops.append(("commit",))
     ops.append(("reopen",))
     for i in IDENT:
@@ -243,6 +244,12 @@ def run_seq(seq, dbdir):
                 target = IDENT[op[2]][0] if op[2] in IDENT else op[2]
                 ctx.add_page(title, ns, None, redirect_to=target)
                 ref.add(title, ns, None, target, "wikitext")
+            elif kind == "addbad":
+                try:
+                    ctx.add_page("Template:Bad\udc00title", 10, "bad")
+                    viol.append(("rejected_add_raises", step, "returned", "an exception"))
+                except Exception:
+                    pass
             elif kind == "commit":
                 ctx.db_conn.commit()
                 ref.commit()
